@@ -184,7 +184,7 @@ HOPS = {
     'mergeduplicates': lambda t, **kw: petl.mergeduplicates(t, 'a', **kw),
     'rowgroupmap': lambda t, **kw: petl.rowgroupmap(t, 'a', _grp, header=['a', 'c', 'n'], **kw),
 }
-EDITS = [[0, 10, 'E0'], [None, 11, 'E1'], [5, 10, 'E2'], [1, 11, 'E3']]
+EDITS = [[0, 12, 'E0'], [None, 11, 'E1'], [5, 10, 'E2'], [1, 11, 'E3']]     # the first edit brings a new value of 'b'
 
 
 def cache_history(sym, op, n0, H, cache, bs):
